@@ -92,6 +92,12 @@ PROPS['C13'] = dict(level='other', steps=[E3('c13-queries')],
                 text='bounded stand-in: every read-only query on every enumerated small document returns without panic, abort, stack overflow or exceeding a CPU budget; lookups agree with an independent chain follower.',
                 note='bounded; the walkers are closure/iterator code not under contract')
 
+PROPS['C15'] = dict(level='proof', steps=[V('cmap'), E3('c15-cmap')],
+                title='ToUnicode CMaps decode text as the CMap defines',
+                technique='Verus contracts on ToUnicodeCMap::{put, put_char, get, get_or_replacement_char} against the CMap semantics with an honest rangemap contract (get_key_value may return any stored interval); bounded CMap texts through the real parser',
+                text='for every sequence of definitions: put overwrites exactly the codes it covers (last definition wins), a range adds the offset to the last UTF-16 unit, an array target is indexed by the offset, get returns the stored meaning independently of how the range map splits or merges intervals, no arithmetic overflow or index error (Verus). The CMap grammar (nom) and the UTF-16 assembly in bytes_to_string are covered by the bounded family.',
+                note='rangemap and encoding_rs assumed (contract stated in vk/units/cmap/spec.rs); cmap_parser is nom: bounded only')
+
 NOT_APPLICABLE = {
     'C18': "every clause is about what chrono/jiff/time format and parse; the crate's own code is two string edits, so no contract within either verifier's reach expresses the property",
 }
